@@ -53,7 +53,6 @@ func c01Depth(expr string) int {
 
 // diffSearch compares Search with the reference on one (expression, document).
 func diffSearch(expr string, doc any, unordered bool) {
-	vrtKnown("C01-F1", knownAdjacentProjection(expr))
 	got, err := Search(expr, doc)
 	want, ec, env := refSearchEnv(expr, doc)
 	if ec == ecUnspecified {
@@ -71,6 +70,9 @@ func diffSearch(expr string, doc any, unordered bool) {
 		return
 	}
 	vrtAssert(err == nil, "unexpected error")
+	if !vrtSymbolic() {
+		vrtNote(vrtDescribe(expr, got, err, want))
+	}
 	if err != nil {
 		return
 	}
@@ -158,6 +160,33 @@ func H_C01_chain2() {
 	diffSearch(expr, doc, c01Unordered(expr))
 }
 
+// H_C01_rhs: continuation of a projection's right-hand side behind a first
+// element the parser's own right-hand-side routine builds itself (multi-select
+// hash, multi-select list, .[*]): every kind of selector that routine's
+// continuation loop handles, then optionally one more step.
+var c01RhsHeads = []string{"[*]", "*", "[?a]", "a[*]", "[1:]", "[]"}
+var c01RhsFirst = []string{".{x: a}", ".[a, b]", ".[*]", ".{x: a, y: b}"}
+var c01RhsCont = []string{".*", ".x", ".a", "[0]", "[*]", "[?a]", "[?x]", "[]", "[1:]", ".[x]", ".{y: x}", ".[*]", " | [0]", "[-1]"}
+var c01RhsLast = []string{"", ".a", "[0]", ".*", ".x"}
+
+func H_C01_rhs() {
+	c01Spec()
+	nh, nf, nl := len(c01RhsHeads), len(c01RhsFirst), len(c01RhsLast)
+	if vrtTier() == 0 {
+		nh, nf, nl = 2, 2, 2
+	}
+	expr := c01RhsHeads[vrtChoose("head", nh)] + c01RhsFirst[vrtChoose("first", nf)] + c01RhsCont[vrtChoose("cont", len(c01RhsCont))] + c01RhsLast[vrtChoose("last", nl)]
+	vrtNote("template:" + expr)
+	var doc any
+	if vrtTier() == 0 {
+		// quick: container roots; below them null, boolean (both truth values), array, object
+		doc = vrtDoc("d", 3, uArr|uObj, uNil|uBool|uArr|uObj)
+	} else {
+		doc = vrtDoc("d", 3, uJSON, uJSON)
+	}
+	diffSearch(expr, doc, c01Unordered(expr))
+}
+
 // H_C01_forms: boolean, comparison, parenthesis and extent forms.
 func H_C01_forms() {
 	c01Spec()
@@ -166,78 +195,4 @@ func H_C01_forms() {
 	vrtNote("template:" + expr)
 	doc := vrtDoc("d", c01Depth(expr), uJSON, uJSON)
 	diffSearch(expr, doc, c01Unordered(expr))
-}
-
-// knownAdjacentProjection is the input region of known finding C01-F1: a
-// projection-forming selector ([*], a slice, a filter, [] or a value wildcard)
-// immediately followed by [*], a slice or a filter. The parser's
-// right-hand-side routine mis-handles that second selector (see
-// known_findings.json).
-func knownAdjacentProjection(expr string) bool {
-	prevProj := false
-	i := 0
-	for i < len(expr) {
-		c := expr[i]
-		switch {
-		case c == '[':
-			// find the matching bracket
-			depth, j := 0, i
-			for j < len(expr) {
-				if expr[j] == '[' {
-					depth++
-				} else if expr[j] == ']' {
-					depth--
-					if depth == 0 {
-						break
-					}
-				} else if expr[j] == '`' || expr[j] == '\'' || expr[j] == '"' {
-					q := expr[j]
-					j++
-					for j < len(expr) && expr[j] != q {
-						j++
-					}
-				}
-				j++
-			}
-			if j >= len(expr) {
-				return false
-			}
-			inner := expr[i+1 : j]
-			isStar := inner == "*"
-			isFilter := len(inner) > 0 && inner[0] == '?'
-			isFlatten := inner == ""
-			isSlice := false
-			if !isStar && !isFilter && !isFlatten {
-				onlyIdx := true
-				for k := 0; k < len(inner); k++ {
-					ch := inner[k]
-					if ch == ':' {
-						isSlice = true
-					} else if !(ch >= '0' && ch <= '9') && ch != '-' && ch != ' ' {
-						onlyIdx = false
-					}
-				}
-				if !onlyIdx {
-					isSlice = false
-				}
-			}
-			if prevProj && !isFlatten {
-				// [*], a slice, a filter, an index or a multi-select directly behind a
-				// projection-forming selector
-				return true
-			}
-			prevProj = isStar || isFilter || isSlice || isFlatten
-			i = j + 1
-		case c == '*':
-			prevProj = true
-			i++
-		case c == '.' && i+1 < len(expr) && expr[i+1] == '*':
-			prevProj = true
-			i += 2
-		default:
-			prevProj = false
-			i++
-		}
-	}
-	return false
 }
